@@ -4,7 +4,6 @@ import (
 	"fmt"
 	"math/big"
 	"strings"
-
 )
 
 // C12 — chromatic adaptation maps white to white and composes.
